@@ -819,6 +819,49 @@ def find_calls(body_toks, src):
     return calls
 
 
+def body_member_refs(body_toks):
+    """`a.b` pairs inside a statement body whose `a` is a plain identifier (not itself a member):
+    candidates for references through a namespace import (types.FooSchema)."""
+    out = []
+    seen = set()
+    for j, t in enumerate(body_toks[:-2]):
+        if t.k != "id":
+            continue
+        prev = body_toks[j - 1] if j > 0 else None
+        if prev is not None and prev.k == "p" and prev.v in (".", "?."):
+            continue
+        n1, n2 = body_toks[j + 1], body_toks[j + 2]
+        if n1.k == "p" and n1.v == "." and n2.k == "id":
+            key = (t.v, n2.v)
+            if key not in seen:
+                seen.add(key)
+                out.append([t.v, n2.v])
+    return out
+
+
+def body_locals(body_toks):
+    """names bound inside a statement body: const/let/var declarations, catch parameters, arrow parameters"""
+    out = set()
+    n = len(body_toks)
+    for j, t in enumerate(body_toks):
+        if t.k == "id" and t.v in ("const", "let", "var") and j + 1 < n and body_toks[j + 1].k == "id":
+            out.add(body_toks[j + 1].v)
+        if t.k == "id" and t.v == "catch" and j + 2 < n and body_toks[j + 1].k == "p" and body_toks[j + 1].v == "(" and body_toks[j + 2].k == "id":
+            out.add(body_toks[j + 2].v)
+        if t.k == "p" and t.v == "=>":
+            # (a, b) =>   or   a =>
+            k = j - 1
+            if k >= 0 and body_toks[k].k == "id":
+                out.add(body_toks[k].v)
+            elif k >= 0 and body_toks[k].k == "p" and body_toks[k].v == ")":
+                k -= 1
+                while k >= 0 and not (body_toks[k].k == "p" and body_toks[k].v == "("):
+                    if body_toks[k].k == "id":
+                        out.add(body_toks[k].v)
+                    k -= 1
+    return sorted(out)
+
+
 def check_balanced(toks):
     pairs = {"(": ")", "[": "]", "{": "}"}
     stack = []
@@ -986,7 +1029,8 @@ def _item(p, src):
             raise ParseError("function without body", p.peek().pos)
         check_balanced(body)
         return {"k": "function", "n": name, "exported": exported, "async": is_async, "ps": ps, "r": r,
-                "calls": find_calls(body, src), "tps": tps}
+                "calls": find_calls(body, src), "tps": tps, "bodyrefs": body_member_refs(body),
+                "bodylocals": body_locals(body)}
     if p.at_id("enum") or p.at_id("class") or p.at_id("namespace") or p.at_id("abstract"):
         kind = p.next().v
         name = p.binding_name()
